@@ -891,7 +891,9 @@ class Expectation(Pytree):
             effectively performing only the forward pass through the stochastic
             computation graph.
         """
-        tangents = jtu.tree_map(lambda _: 0.0, args)
+        # Zero tangents with the shape of each argument (a scalar 0.0 breaks
+        # shape-dependent JVP rules for array-valued arguments).
+        tangents = jtu.tree_map(lambda v: jnp.zeros_like(v), args)
         return self.jvp_estimate(*Dual.dual_tree(args, tangents)).primal
 
 
